@@ -212,6 +212,12 @@ def _unitq(case):
     ok, U = c.lib("UnitQuaternion(s,v)", L.UnitQuaternion, float(q[0]), [float(x) for x in q[1:]])
     if ok:
         c.eq("UnitQuaternion(s,v)/value", U.vec, qu, TOL)
+    for nrows in (1, 2, 3):
+        arr2 = np.stack([q * (k + 1.0) * (-1.0) ** k for k in range(nrows)])
+        ok, U = c.lib("UnitQuaternion(Nx4)", L.UnitQuaternion, arr2)
+        if ok and c.true("UnitQuaternion(Nx4)/len", len(U) == nrows, "N x 4 array of %d rows gave %d values" % (nrows, len(U))):
+            for k, a in enumerate(U.data):
+                c.eq("UnitQuaternion(Nx4)/value", a, qu * (-1.0) ** k, TOL)
     ok, U = c.lib("UnitQuaternion(unit array)", L.UnitQuaternion, qu.copy())
     if ok:
         c.eq("UnitQuaternion(unit array)/fixedpoint", U.vec, qu, TOL)
